@@ -2,7 +2,7 @@ import Verif.Model.SSH
 /-!
   Line-protocol driver for C14 (SSH certificates: type, key id, principals, signer; SSH-POP).
 
-  op=sign   prov=jwk|x5c|oidc|oidcadm|nebula|k8ssa cau=0|1 cah=0|1 dbe=0|1 epc=0|1 sub=x… ssh=0|1 tct=x… tkid=x… tpr=<list>
+  op=sign   prov=jwk|x5c|oidc|oidcadm|nebula|k8ssa|aws|awsdcs cau=0|1 cah=0|1 dbe=0|1 epc=0|1 sub=x… ssh=0|1 tct=x… tkid=x… tpr=<list>
             oem=x… ousr=<list> nbn=x… nbi=<list> tpip=<list of x…|!> tva=-|<n> tvb=-|<n> rva=-|<n> rvb=-|<n> rct=x… rkid=x… rpr=<list> au=0|1 scfg=0|1 key=ok|rsasmall|dsa
   op=renew|rekey|revoke
             cau= cah= dren=0|1 aexp=0|1 ct=<n> kid=x… pr=<list> pco=<kv list> pex=<kv list> su=0|1 sh=0|1 ny=0|1 ex=0|1 hv=0|1
@@ -49,7 +49,8 @@ def key? (t : String) : Option KeyClass :=
 def prov? (t : String) : Option Prov :=
   match t with
   | "jwk" => some .jwk | "x5c" => some .x5c
-  | "oidc" => some (.oidc false) | "oidcadm" => some (.oidc true) | "nebula" => some .nebula | "k8ssa" => some .k8ssa | _ => none
+  | "oidc" => some (.oidc false) | "oidcadm" => some (.oidc true) | "nebula" => some .nebula | "k8ssa" => some .k8ssa
+  | "aws" => some (.aws false) | "awsdcs" => some (.aws true) | _ => none
 
 def signerS : Signer → String
   | .userKey => "user" | .hostKey => "host"
